@@ -221,7 +221,7 @@ func (c *Ctx) scanTables() *scanTables {
 				return false
 			})
 		}
-		scan(st.scanLoop.Body, 0)
+		scan(st.scanLoop, 0)
 	}
 	if len(st.order) == 0 {
 		// data-driven form: for _, t := range <table of token types> { if v.found(t) { continue scanning } }
@@ -242,7 +242,7 @@ func (c *Ctx) scanTables() *scanTables {
 				return true
 			})
 		}
-		helpers(st.scanLoop.Body, 0)
+		helpers(st.scanLoop, 0)
 		tableHelperOf := map[ast.Node]*ast.FuncDecl{}
 		for _, f := range c.Pkgs["cdcn"].Syntax {
 			for _, d := range f.Decls {
